@@ -46,6 +46,37 @@ func runC14(c *ShardCtx) {
 		}, scripts: crossPredScripts, nontrivial: fam.nontrivial, refOpts: fam.refOpts, cmp: core.CmpOpts{SkipNoMatch: true, EventKey: stateKey}}) {
 		return
 	}
+	// left-recursive rules (-support-left-recursion) that throw: the same rule evaluated at the same
+	// offset under DIFFERENT handlers (first alternative / second alternative, inside / outside a
+	// recovery operator)
+	{
+		lit := peg.Lit
+		lrA := []func() *peg.Expr{
+			func() *peg.Expr { return peg.Choice(peg.Seq(peg.Ref("A"), lit("b")), peg.Seq(lit("a"), peg.Throw("l"))) },
+			func() *peg.Expr { return peg.Choice(peg.Seq(peg.Ref("A"), lit("b"), peg.Throw("l")), lit("a")) },
+			func() *peg.Expr { return peg.Choice(peg.Seq(peg.Ref("A"), peg.Choice(lit("b"), peg.Throw("m"))), peg.Seq(lit("a"), peg.Opt(peg.Throw("l")))) },
+		}
+		tops := []func() *peg.Expr{
+			func() *peg.Expr { return peg.Choice(peg.Recover(peg.Ref("A"), lit("a"), "l"), peg.Recover(peg.Ref("A"), lit("b"), "l")) },
+			func() *peg.Expr { return peg.Choice(peg.Seq(peg.Ref("A"), lit("a")), peg.Recover(peg.Ref("A"), lit("b"), "l", "m")) },
+			func() *peg.Expr { return peg.Seq(peg.And(peg.Recover(peg.Ref("A"), lit(""), "l")), peg.Ref("A")) },
+			func() *peg.Expr { return peg.Recover(peg.Seq(peg.Opt(peg.Seq(peg.Ref("A"), lit("a"))), peg.Ref("A")), peg.Star(lit("b")), "l") },
+		}
+		famLR := *fam
+		famLR.gens = []core.Gen{{LeftRec: true}, {LeftRec: true, Optimize: true}}
+		famLR.inputs = peg.Inputs([]string{"a", "b"}, 4)
+		famLR.confEvery = 3
+		for _, a := range lrA {
+			for _, t := range tops {
+				idx++
+				if !c.Mine(idx) {
+					continue
+				}
+				g := wrap(t(), &peg.Rule{Name: "A", Expr: a()})
+				runGrammar(c, g, &famLR)
+			}
+		}
+	}
 	for size := 1; size <= n; size++ {
 		for _, body := range en.Size(size) {
 			g0 := &peg.Grammar{Rules: []*peg.Rule{{Name: "S", Expr: body}}}
